@@ -44,6 +44,10 @@ checks = {
    text="PARTIAL claim (byte-level part only). A seeded value of fp.Option[T] (T = int incl. extremes, string with escapes, float64, bool, nested Option, []int, map[string]int, struct with Option fields, *int; top-level and inside slices/maps/structs) or fp.Unit is marshalled into a simulated byte store. Fault-free class: json.Unmarshal and json.Decoder (over a short-reading io.Reader) give back a deep-equal value, None <=> null both ways, bytes equal encoding/json of the plain value. Fault class: torn write at EVERY offset of the record (complete), plus seeded bit flips, byte duplication/deletion, splice, zero fill, whitespace, concatenated records, and a reader error mid-stream; decoding into a pre-populated target must never panic, and when it returns an error an Option/Unit target must be unchanged.",
    note="NOT decided here: the quantifier over @fp.Json struct shapes and the equality with the Mutable twin's encoding (statements about gombok-generated programs, see C07 - not a simulation target). Values whose own encoding is null are excluded as the property says. 'Unchanged on error' is required of Option/Unit targets only, not of plain containers encoding/json itself fills incrementally.",
    technique="fault injection on the byte store / io.Reader seam: exhaustive torn-write offsets + seeded corruption per record, round-trip and target-unchanged oracles"),
+ "C13": dict(cat="exploration", design="DESIGN.md §4 C13",
+   text="The nondeterminism the property names - Go's randomised map iteration inside gombok, template_gen and monad_gen - has no seam in the Go runtime, so the check manufactures one at run time: a scratch copy of the working tree is rewritten (go/types-based: every `range` over a map-typed expression and every maps.All/Keys/Values call in the packages the generators link, 37+2 sites today) to go through a drop-in that iterates in a permutation that is a pure function of (seed, call site, per-site counter); the three generators are built from that copy and run, exactly as `go generate` would run them (GOPACKAGE/GOFILE/GOLINE, cwd), for every go:generate directive of the repository on pristine scratch copies of the working tree, under 2 (quick) / 16 (thorough) seeds and GOMAXPROCS in {1,4,16}. Oracle per seed: the result is byte-identical to the working tree (fixpoint, hence identical across seeds; thorough regenerates a second time on top of the first output), every file with a 'Code generated ... DO NOT EDIT' header is written by some directive and generators write only such files. Sampling of iteration orders, not proof.",
+   note="Stretch: the seam is manufactured by source rewriting of a scratch copy, never of /repo. Not owned: go/packages' `go list` subprocesses, and the base order of pointer keys without a position (process-dependent before the seeded shuffle) - a failure is reported with its seed and replayed with ./check replay. The scratch packages of C07/C08 mentioned in the quantifier do not exist (those properties are not applicable here).",
+   technique="deterministic simulation of map-iteration order: source-rewritten generators (seeded permutation per call site) run over pristine copies, byte-for-byte fixpoint oracle"),
 }
 
 na = {
